@@ -401,7 +401,7 @@ def dFwd (w : World) : Proc → World
 /-- stage 3 (accepted only): queue, history, unfinished-task counter -/
 def dEnqueue (w : World) (b : BId) (e : EId) : World :=
   w.modBus b fun B =>
-    { B with queue := B.queue ++ [e],
+    { B with queue := B.queue ++ [e], enq := B.enq ++ [e],
              hist := if B.hist.contains e then B.hist else B.hist ++ [e],
              unfinished := B.unfinished + 1 }
 
@@ -488,7 +488,7 @@ def apply0 (w : World) : Label → World
   | .rlCreate b => w.modBus b fun B => { B with created := true, running := true, rl := .polling }
   | .dispatch p b e res => applyDispatch w p b e res
   | .take p b e =>
-    let w := w.modBus b fun B => { B with queue := B.queue.tail }
+    let w := w.modBus b fun B => { B with queue := B.queue.tail, taken := B.taken ++ [e] }
     match p with
     | .rl _ => w.modBus b fun B => { B with rl := .took e, woke := false }
     | .inst i => w.modInst i fun I => { I with took := some (b, e), iters := I.iters + 1 }
